@@ -170,7 +170,9 @@ func VerifHarness_C08_record_prehandshake() {
 	// the record that may have been accepted: the first one, or the second when the first was a warning alert
 	// (dropped and retried)
 	off := 0
-	if l1 == 2 && n >= 7 && stream[0] == 21 && stream[4] == 2 && stream[5] == 1 && stream[6] != 0 {
+	// (what counts is the length the first record CLAIMS: with a lying length field of 2 it swallows the first two
+	// bytes of what follows, whatever its real body was)
+	if n >= 7 && stream[0] == 21 && stream[3] == 0 && stream[4] == 2 && stream[5] == 1 && stream[6] != 0 {
 		off = 7
 	}
 	if err == nil {
